@@ -247,6 +247,41 @@ impl VM {
                 }
             }
 
+            #[cfg(feature = "verif")]
+            {
+                let mut after_collect = false;
+                loop {
+                    let action = crate::verif::step(&crate::verif::StepInfo {
+                        ip: self.ip,
+                        code: &self.instructions,
+                        stack: &self.stack,
+                        globals: &self.globals,
+                        constants: &constants,
+                        last_value: final_result,
+                        frames: self.frames.len(),
+                        bp: self.bp as usize,
+                        after_collect,
+                    });
+                    match action {
+                        crate::verif::StepAction::Continue => break,
+                        crate::verif::StepAction::Fail => {
+                            return Err(Error::TypeError(
+                                crate::verif::INJECTED_FAILURE.to_string(),
+                            ))
+                        }
+                        crate::verif::StepAction::Collect => {
+                            gc.run(&[
+                                self.stack.as_slice(),
+                                constants.as_slice(),
+                                self.globals.as_slice(),
+                                &[final_result],
+                            ]);
+                            after_collect = true;
+                        }
+                    }
+                }
+            }
+
             match self.next() {
                 OpCode::Const => {
                     let idx = self.read_u16();
